@@ -300,6 +300,16 @@ fn main() {
         println!("{}", serde_json::to_string(&json!({"versions": engine_d::universe_texts(&u)})).unwrap());
         return;
     }
+    if args[0] == "probe" {
+        // semver-mc probe <range text>... : what the crate makes of each text (triage aid, not a check)
+        for t in &args[1..] {
+            match nodejs_semver::Range::parse(t) {
+                Ok(r) => println!("{:?} => {}   bounds {}   min_version {:?}", t, r, engine_c::bound_key(&r.verif_bounds()), r.min_version().map(|v| v.to_string())),
+                Err(e) => println!("{:?} => Err({:?} at {})", t, e.kind(), e.offset()),
+            }
+        }
+        std::process::exit(0);
+    }
     if args[0] == "oracle-crosscheck" {
         match engine_a::oracle_crosscheck() {
             Ok((cases, cells, dis, first)) => {
